@@ -14,6 +14,9 @@ bool nondet_bool(void);
 // value observed by the translator-validation run (generated C vs native IR)
 void vf_observe(uint64_t);
 }
+// targets of the vtable scrub done by engine/prep_ir.py
+extern "C" __attribute__((used, noinline)) void vf_virtual_stub(void*) { __CPROVER_assert(false, "virtual destructor or out-of-scope virtual function invoked"); __CPROVER_assume(false); }
+extern "C" __attribute__((used, noinline)) void vf_virtual_noop(void*) {}
 #define VF_ASSUME(x) __CPROVER_assume(x)
 #define VF_ASSERT(x, msg) __CPROVER_assert((x), msg)
 // Reachability witness: this assertion is EXPECTED to fail.  A query whose
